@@ -177,7 +177,13 @@ func reflectValue(rv reflect.Value, val any, opt *Options) (v any) {
 	case reflect.Ptr:
 		elem := rv.Elem()
 		if elem.IsValid() && elem.CanInterface() {
-			v = reflectValue(elem, elem.Interface(), opt)
+			ev := elem.Interface()
+			if tt, ok := ev.(time.Time); ok {
+				// A pointer to a time is a time and not a struct without fields.
+				v = opt.DecomposeTime(tt)
+			} else {
+				v = reflectValue(elem, ev, opt)
+			}
 		} else {
 			v = nil
 		}
